@@ -22,26 +22,26 @@ import (
 
 // Result is one line of worker output.
 type Result struct {
-	Type     string             `json:"type"` // "result"
-	World    string             `json:"world"`
-	Run      int                `json:"run"`
-	Seed     uint64             `json:"seed"`
-	Verdict  string             `json:"verdict"` // ok | violation | inconclusive
-	Viols    []kernel.Violation `json:"violations,omitempty"`
-	Inconcl  string             `json:"inconclusive,omitempty"`
-	Steps    int                `json:"steps"`
-	SimNS    int64              `json:"sim_ns"`
-	Faults   map[string]int     `json:"faults,omitempty"`
-	Probes   map[string]int     `json:"probes,omitempty"`
-	LogHash  string             `json:"log_hash"`
-	NStates  int                `json:"n_states"`
-	Sample   []string           `json:"sample,omitempty"`
-	WTape    []uint32           `json:"wtape,omitempty"`
-	STape    []uint32           `json:"stape,omitempty"`
-	Trace    []string           `json:"trace,omitempty"`
-	Leaked   bool               `json:"leaked,omitempty"`
-	WallUS   int64              `json:"wall_us"`
-	Overrun  int                `json:"overrun,omitempty"`
+	Type    string             `json:"type"` // "result"
+	World   string             `json:"world"`
+	Run     int                `json:"run"`
+	Seed    uint64             `json:"seed"`
+	Verdict string             `json:"verdict"` // ok | violation | inconclusive
+	Viols   []kernel.Violation `json:"violations,omitempty"`
+	Inconcl string             `json:"inconclusive,omitempty"`
+	Steps   int                `json:"steps"`
+	SimNS   int64              `json:"sim_ns"`
+	Faults  map[string]int     `json:"faults,omitempty"`
+	Probes  map[string]int     `json:"probes,omitempty"`
+	LogHash string             `json:"log_hash"`
+	NStates int                `json:"n_states"`
+	Sample  []string           `json:"sample,omitempty"`
+	WTape   []uint32           `json:"wtape,omitempty"`
+	STape   []uint32           `json:"stape,omitempty"`
+	Trace   []string           `json:"trace,omitempty"`
+	Leaked  bool               `json:"leaked,omitempty"`
+	WallUS  int64              `json:"wall_us"`
+	Overrun int                `json:"overrun,omitempty"`
 }
 
 // ReplayFile is the on-disk format of a failing (or any) run.
